@@ -5,6 +5,7 @@ from fractions import Fraction as Fr
 import mpmath
 import importlib
 c07 = importlib.import_module("props.c07")
+c04 = importlib.import_module("props.c04")
 
 
 def run(rep, rng, tier, replay=None):
@@ -33,6 +34,7 @@ def run(rep, rng, tier, replay=None):
     for c, fi, m, o, timpl in got:
         n = SC.case_numbers(c)
         E, D, L = n["E"], n["D"], n["L"]
+        c04.check_exact(rep, c, timpl, False)     # the normalisation itself: I_tr Gamma(dod) / prod Gamma(w) pi^(DL/2) in exact / 50-digit arithmetic
         dod, fac = b2f(timpl["dod"]), b2f(timpl["factor_bits"])
         u, v, jac = b2f(fi["u"]), b2f(fi["v"]), b2f(fi["jacobian"])
         bad = []
@@ -87,5 +89,5 @@ def run(rep, rng, tier, replay=None):
         rep.sample(dict(family=c["family"], D=D, L=L, dod=dod, jacobian=jac, u=u, v=v))
     rep.cov["skipped_ill_conditioned_or_degenerate"] = skipped
     rep.cov["rule"] = ("accepted connected graphs, D=1..6 (odd and even), 1..4 loops, generic shifts; jacobian, u, v, u_trop, v_trop vs the Coq model; jacobian vs the model's formula "
-                       "on the implementation's own u, v; then in 40-digit arithmetic: normalisation*u^(-D/2)*v^(-dod), and the same value recomputed from the UNRESCALED "
+                       "on the implementation's own u, v; the normalisation constant vs exact I_tr and 50-digit Gamma/pi; then in 40-digit arithmetic: normalisation*u^(-D/2)*v^(-dod), and the same value recomputed from the UNRESCALED "
                        "parameters with exact U, V (tolerance scaled by exact kappa*cancellation; above 1e7 skipped). non-trivial = odd D or L>=2")
